@@ -1,4 +1,5 @@
 pub mod cfg;
 pub mod progen;
 pub mod syngen;
+pub mod datagen;
 pub mod c17gen;
